@@ -546,6 +546,10 @@ func genInput(r *rng.R) (Input, []string) {
 		in.UseOrder = 1
 		cl = append(cl, "use-pms-order")
 	}
+	// the candidate and/or the depending package loaded from a generated VDB entry (r5_vdb.go)
+	if len(in.Use) > 0 && r.Chance(2, 5) {
+		cl = append(cl, vdbVariant(r, &in)...)
+	}
 	return in, cl
 }
 
